@@ -231,7 +231,15 @@ def run(ctx):
     if unbound:
         ctx.notes.append("probe targets not found (refinement skipped): %s" % unbound)
     nontrivial = len({c["s"] + repr(sorted((c["settings"] or {}).items())) + repr(c["kw"]) for c, r in zip(cases, results) if r["out"]})
+    # the character scanner in front of the token machine (spec/CharTokens.tla) is bound here: its output is what the abstract
+    # tokens of every AbsParser / NoSpaces refinement are read from.  Mismatches are reported as model drift.
+    from .. import chartokcheck
+    scanner = {}
+    if not ctx.replay:
+        pairs = list(dict.fromkeys((c["s"], (c["kw"].get("languages") or [None])[0]) for c in cases if isinstance(c.get("s"), str)))
+        scanner = chartokcheck.run(ctx, ctx.rng.sample(pairs, min(len(pairs), 900 if ctx.quick() else 6000)) + chartokcheck.multilingual(langs))
     cov = {
+        "character_scanner": scanner,
         "states": mc.distinct, "transitions": mc.generated,
         "traces_validated_against_impl": len(cases) - skipped_prop,
         "abs_events_validated": nabs - skipped_abs,
